@@ -12,7 +12,10 @@
 (*            assignment; `pre` = the expression is bound outside the macro *)
 (*            (shorthand forms), so it is evaluated whatever the filters say*)
 (*   message  [present, text, args]  (format-string message)                *)
-(*   record   later Span::record calls [field, declared, ty, slot]          *)
+(*   record   later Span::record calls [field, declared, ty, slot] (by name *)
+(*            or by Field key: a key of another callsite is undeclared), or *)
+(*            a hand-built value set [set, entries: [field, own, ty, slot]] *)
+(*            whose entries may be keyed by a foreign callsite's fields     *)
 (* A value assignment gives every slot its canonical text under the typed   *)
 (* route (`canon`) and its Display / Debug texts (`disp`, `dbg`).           *)
 (*                                                                          *)
@@ -65,14 +68,22 @@ SlotUses(d) ==   \* slot -> pre?
   LET fs == {<<d.fields[i].slot, d.fields[i].pre>> : i \in {j \in 1..Len(d.fields) : d.fields[j].slot >= 0}}
       ms == IF d.message.present THEN {<<d.message.args[i].slot, d.message.args[i].pre>> : i \in 1..Len(d.message.args)} ELSE {}
       rs == {<<d.record[i].slot, TRUE>> : i \in 1..Len(d.record)}       \* arguments of Span::record are ordinary call arguments
-  IN fs \cup ms \cup rs
+      es == UNION {{<<d.record[i].entries[j].slot, TRUE>> : j \in 1..Len(d.record[i].entries)} : i \in 1..Len(d.record)}
+  IN fs \cup ms \cup rs \cup es
 ExpectedEvals(d, en, nslots) ==
   [s \in 1..nslots |-> IF \E u \in SlotUses(d) : u[1] = s - 1 /\ u[2] THEN 1
                        ELSE IF \E u \in SlotUses(d) : u[1] = s - 1 THEN (IF en THEN 1 ELSE 0)
                        ELSE 0]
 
-\* later Span::record calls: a declared field is shown once with its typed value; an undeclared name is ignored
+\* later Span::record calls: a declared field is shown once with its typed value; an undeclared name - or a key that
+\* belongs to another callsite - is ignored (no call at all); a hand-built value set is one call showing exactly its
+\* entries keyed by the span's own fields, in order
+RecVisit(e, slots) == [name |-> e.field, m |-> TypeRoute(e.ty), v |-> slots[e.slot + 1].canon]
+RecOpVisits(op, slots) ==
+  IF op.set THEN LET idx == SelectSeq([i \in 1..Len(op.entries) |-> i], LAMBDA i : op.entries[i].own) IN
+                 [j \in 1..Len(idx) |-> RecVisit(op.entries[idx[j]], slots)]
+  ELSE << RecVisit(op, slots) >>
 RecordVisits(d, slots) ==
   LET idx == SelectSeq([i \in 1..Len(d.record) |-> i], LAMBDA i : d.record[i].declared) IN
-  [j \in 1..Len(idx) |-> [name |-> d.record[idx[j]].field, m |-> TypeRoute(d.record[idx[j]].ty), v |-> slots[d.record[idx[j]].slot + 1].canon]]
+  [j \in 1..Len(idx) |-> RecOpVisits(d.record[idx[j]], slots)]
 =============================================================================
